@@ -15,14 +15,14 @@ theorem afterSign_zero (c : List Nat) (e : Nat) (neg : Bool) (off : Nat) (he : e
   simp only [hoff, if_true, h0, isNonZeroDigit]
   simp only [Nat.lt_irrefl, decide_false, Bool.false_and, Bool.false_eq_true, if_false, true_or, if_true, true_and]
   have finish : ∀ s : Scan, s = ⟨0, off + 1, false, 0, false⟩ →
-      afterScan c e neg 0 false s = some (if neg then ⟨.real, 0x8000000000000000, off + 1⟩ else ⟨.natural, 0, off + 1⟩) := by
+      thenScan (some (.inr s)) (afterScan c e neg 0 false) = some (if neg then ⟨.real, 0x8000000000000000, off + 1⟩ else ⟨.natural, 0, off + 1⟩) := by
     intro s hs; subst hs
     have hend' : endsAt c e (off + 1) contInt := by
       rcases hend with h | ⟨x, hx, hc⟩
       · exact Or.inl h
       · simp only [contZero, Bool.or_eq_false_iff] at hc
         exact Or.inr ⟨x, hx, hc.1.1⟩
-    unfold afterScan
+    unfold thenScan afterScan
     simp only [twentieth_stop c e 0 (off + 1) hend']
     cases neg <;> simp
   rcases hend with h | ⟨x, hx, hc⟩
